@@ -73,6 +73,9 @@ type Config struct {
 	// DeepNest > 0: one chain of nested blocks / function declarations / function expressions is forced
 	// down to this many statement-list contexts, with a statement before and after each nested construct
 	DeepNest int
+	// DeepBlocksFirst: the outermost levels of the forced chain (context depth below this) are plain blocks;
+	// DeepFuncsFirst: they are functions, and every level below is a block
+	DeepBlocksFirst, DeepFuncsFirst int
 }
 
 var idents = []string{"a", "b", "c", "x", "y", "foo", "bar", "done", "index", "value", "item", "obj", "arr", "fn", "n", "i", "tmp", "result", "count",
@@ -514,7 +517,15 @@ func (e *emitter) deepChain(parent, nest int) {
 	if ch.Bool(2, 3) {
 		simple()
 	}
-	switch ch.Weighted(3, 4, 3) {
+	kind := ch.Weighted(3, 4, 3)
+	if len(e.ctx) < e.cfg.DeepBlocksFirst {
+		kind = 0
+	} else if len(e.ctx) < e.cfg.DeepFuncsFirst {
+		kind = 1 + ch.Choose(2)
+	} else if e.cfg.DeepFuncsFirst > 0 {
+		kind = 0
+	}
+	switch kind {
 	case 0:
 		e.stmtK(parent, nest, 5) // block
 	case 1:
